@@ -22,7 +22,7 @@ run_one() {
   rm -rf "$T" "$V"
 }
 export -f run_one
-ls seeded | grep -E '^C[0-9]+-[A-Z]$' | xargs -P 14 -I{} bash -c "run_one {} $OUT $IDS"
+ls seeded | grep -E "^C[0-9]+-[A-Z]$" | grep -E -e "${SEEDFILTER:-.}" | xargs -P 14 -I{} bash -c "run_one {} $OUT $IDS"
 /venv/bin/python - "$OUT" <<'PY'
 import sys, os, json
 out = sys.argv[1]
